@@ -1887,7 +1887,7 @@ class Population:
                     denom_par = parset.pars[obj.denominator.name]
                     b[i] *= denom_par.interpolate(t_init, pop_name=self.name)[0] * denom_par.y_factor[self.name] * denom_par.meta_y_factor
                 for inc in obj.get_included_comps():
-                    A[i, comp_indices[inc.name]] = 1.0
+                    A[i, comp_indices[inc.name]] += 1.0  # a compartment reached along two include paths is counted twice by Characteristic.vals
             else:
                 A[i, comp_indices[obj.name]] = 1.0
 
